@@ -349,6 +349,10 @@ ARGS_LOOP:
 		// different level. It is as if it was ignoring getoptions.Pass.
 		if optPair, is := isOption(iterator.Value(), mode, false); is {
 
+			// The verbatim token: the iterator moves forward when an option in a bundle consumes arguments.
+			token := iterator.Value()
+			tokenPassed := false
+
 			// iterate over the possible cli args and try matching against expectations
 			for _, p := range optPair {
 				// handle full option match
@@ -365,12 +369,16 @@ ARGS_LOOP:
 						break ARGS_LOOP
 					}
 					// TODO: This shouldn't append new children but update existing ones and isOption needs to be able to check if the option expects a follow up argument.
-					opt := newUnknownCLIOption(currentProgramNode, p.Option, iterator.Value(), p.Args...)
+					opt := newUnknownCLIOption(currentProgramNode, p.Option, token, p.Args...)
 					currentProgramNode.UnknownOptions = append(currentProgramNode.UnknownOptions, opt)
 
 					switch currentProgramNode.unknownMode {
 					case Pass, Warn:
-						currentProgramNode.ChildText = append(currentProgramNode.ChildText, iterator.Value())
+						// A bundled token with several unknown options is passed through once.
+						if !tokenPassed {
+							currentProgramNode.ChildText = append(currentProgramNode.ChildText, token)
+							tokenPassed = true
+						}
 					}
 					continue
 				}
